@@ -73,6 +73,14 @@ static Obj make(const std::string &cls)
     die("unknown class"); return Obj();
 }
 
+/* DRIVER_STACKFILL=<0..255>: before every operation the stack below the caller is filled with that byte: results must not
+   depend on it (a class that reads a local it did not initialise sees different garbage in every run) */
+static void __attribute__((noinline)) fill_stack(int v)
+{
+    volatile unsigned char junk[32768];
+    for (size_t i = 0; i < sizeof(junk); i++) junk[i] = (unsigned char)v;
+}
+
 int main(int argc, char **argv)
 {
     FILE *fp = argc > 1 ? fopen(argv[1], "r") : stdin;
@@ -95,6 +103,7 @@ int main(int argc, char **argv)
         if (!objs.count(id)) die("no such object");
         Obj &o = objs[id];
         const std::string &op = t[1];
+        { static int sf = -2; if (sf == -2) { const char *e = getenv("DRIVER_STACKFILL"); sf = e ? atoi(e) : -1; } if (sf >= 0) fill_stack(sf); }
         Bytes b; bool null = false;
         if (op == "setkey") {
             if (t.size() != 3 || !parse_hex(t[2], b, null) || null) die("setkey <hex>");
